@@ -56,8 +56,14 @@ type c11Query struct {
 	tables []int     // indexes into state tables, in FROM order
 	joins  [][4]int  // (tableA, colA, tableB, colB) equalities
 	filt   []c11Filt // filters
+	xcmp   []c11XCmp // comparisons between columns of two different tables with an operator other than '='
 	sel    [][2]int  // (table, col) output columns
 	tags   []string
+}
+
+type c11XCmp struct {
+	ta, ca, tb, cb int
+	op             rm.CmpOp
 }
 
 type c11Filt struct {
@@ -112,6 +118,20 @@ func (s *c11State) eval(q *c11Query) (must, may []rm.Row) {
 			for _, j := range q.joins {
 				a, b := cur[j[0]][j[1]], cur[j[2]][j[3]]
 				if a.Null || b.Null || rm.Compare(a, b) != 0 {
+					return
+				}
+			}
+			for _, x := range q.xcmp {
+				a, b := cur[x.ta][x.ca], cur[x.tb][x.cb]
+				if a.Null || b.Null {
+					if x.op == rm.Ne {
+						v = rm.DontCare
+						continue
+					}
+					return
+				}
+				cmp := rm.Compare(a, b)
+				if !map[rm.CmpOp]bool{rm.Eq: cmp == 0, rm.Ne: cmp != 0, rm.Lt: cmp < 0, rm.Le: cmp <= 0, rm.Gt: cmp > 0, rm.Ge: cmp >= 0}[x.op] {
 					return
 				}
 			}
@@ -213,9 +233,27 @@ func (s *c11State) genQuery() *c11Query {
 			tags["filter-on-first-table"] = true
 		}
 	}
+	// one query in six compares columns of two different tables with an operator other than '='
+	if r.Intn(6) == 0 && !s.big {
+		for tries := 0; tries < 30; tries++ {
+			ta, tb := r.Intn(nt), r.Intn(nt)
+			if ta == tb {
+				continue
+			}
+			ca, cb := r.Intn(len(s.tabs[q.tables[ta]].Cols)), r.Intn(len(s.tabs[q.tables[tb]].Cols))
+			if s.tabs[q.tables[ta]].Cols[ca].K != s.tabs[q.tables[tb]].Cols[cb].K {
+				continue
+			}
+			q.xcmp = append(q.xcmp, c11XCmp{ta, ca, tb, cb, rm.CmpOp(1 + r.Intn(5))})
+			tags["cross-table-comparison"] = true
+			break
+		}
+	}
 	// select list
 	star := false
 	useJoinSyntax := nt == 2 && len(q.joins) == 1 && r.Intn(2) == 0
+	// three tables written as a chain of JOIN ... ON clauses (each ON names the table it introduces)
+	chain := nt == 3 && len(q.joins) == 2 && r.Intn(3) == 0
 	if useJoinSyntax && r.Intn(4) == 0 {
 		star = true
 		for k := 0; k < nt; k++ {
@@ -244,7 +282,18 @@ func (s *c11State) genQuery() *c11Query {
 		lit, _ := f.lit.SQLLit()
 		conds = append(conds, name(f.t, f.c)+" "+f.op.SQL()+" "+lit)
 	}
-	if useJoinSyntax {
+	for _, x := range q.xcmp {
+		conds = append(conds, name(x.ta, x.ca)+" "+x.op.SQL()+" "+name(x.tb, x.cb))
+	}
+	if chain {
+		j1, j2 := q.joins[0], q.joins[1]
+		q.sql = "SELECT " + selStr + " FROM " + s.tabs[q.tables[0]].Name + " JOIN " + s.tabs[q.tables[1]].Name + " ON " + name(j1[0], j1[1]) + " = " + name(j1[2], j1[3]) +
+			" JOIN " + s.tabs[q.tables[2]].Name + " ON " + name(j2[0], j2[1]) + " = " + name(j2[2], j2[3])
+		if len(conds) > 0 {
+			q.sql += " WHERE " + strings.Join(conds, " AND ")
+		}
+		tags["join-syntax-chain"] = true
+	} else if useJoinSyntax {
 		j := q.joins[0]
 		q.sql = "SELECT " + selStr + " FROM " + s.tabs[q.tables[0]].Name + " JOIN " + s.tabs[q.tables[1]].Name + " ON " + name(j[0], j[1]) + " = " + name(j[2], j[3])
 		if len(conds) > 0 {
